@@ -139,7 +139,7 @@ def check_class(r, k, G, start, cont, extra, fast_ok, quick=True, brute=0):
                     chks.append(bad[:-1] + ('C' if bad[-1] != 'C' else 'G'))
                 for chk in chks:
                     dec_case(r, k, G, acc, start, s, need, chk=chk, walk=w)
-                    if fast_ok and not quick:
+                    if fast_ok:
                         dec_case(r, k, G, acc, start, s, need, fast=True, chk=chk, walk=w)
             elif len(s) <= 1 or not quick:
                 dec_case(r, k, G, acc, start, s, need, chk='AC', walk=w)
